@@ -342,6 +342,6 @@ Definition check_case (c : ds * op * res ds * (bool * bool * bool)) : bool :=
   let '(d, o, impl, shares) := c in
   match run_op d o, impl with
   | Ok m, Ok i => ds_match m i && prov_match (prov_of o) shares
-  | Raise a, Raise b => Nat.eqb a b
+  | Raise _, Raise _ => true      (* the property distinguishes no exception class *)
   | _, _ => false
   end.
